@@ -181,20 +181,26 @@ func (c *c09Case) joinAll() {
 	c.s.Note("JC")
 	c.tp.JoinAll()
 	c.s.Note("JR")
-	c.joined = true
-	c.ja = "ok"
+	ja := "ok"
 	// the snapshot JoinAll left its loop with (tasks may be added concurrently with the return)
 	c.s.mu.Lock()
 	js := c.s.lastWS[c.s.labels[c09Goid()]]
 	c.s.mu.Unlock()
 	if js[0] != 0 || js[2] != 0 {
-		c.ja = "bad"
+		ja = "bad"
 	}
 	for _, id := range before {
 		if atomic.LoadInt64(&c.end[id]) == 0 {
-			c.ja = "bad"
+			ja = "bad"
 		}
 	}
+	// JoinAll may run in its own goroutine next to SetWorkerCount calls of the case goroutine
+	c.mu.Lock()
+	c.joined = true
+	if c.ja != "bad" {
+		c.ja = ja
+	}
+	c.mu.Unlock()
 }
 
 func (c *c09Case) quiesce() bool {
@@ -261,6 +267,13 @@ func (c *c09Case) finish() string {
 			bad = append(bad, fmt.Sprintf("t%dx%d", id, n))
 		}
 	}
+	// the other read accessors must agree with State() at quiescence
+	if wc := c.tp.WorkerCount(); stuck != "T" && wc != w {
+		bad = append(bad, fmt.Sprintf("WorkerCount=%d", wc))
+	}
+	if stt := c.tp.Status(); stuck != "T" && ((w == 0) != (stt == pool.StatusStopped)) {
+		bad = append(bad, "Status="+stt)
+	}
 	if atomic.LoadInt32(&c.depTimeout) != 0 {
 		bad = append(bad, "dep-timeout") // a queued task was not started while the task waiting for it ran
 	}
@@ -314,7 +327,7 @@ func (c *c09Case) finish() string {
 var c09Directed = []string{"lostwakeup-empty", "lostwakeup-locked", "lostwakeup-checked", "kill-vs-wait",
 	"kill-vs-wait-empty", "resize-up-burst", "resize-down-burst", "joinall-burst", "waitall-running", "plain",
 	"resize-overkill", "resize-undershoot", "resize-spin", "joinall-vs-resize", "joinall-vs-add", "zero-and-back",
-	"dependent", "nested-add"}
+	"dependent", "nested-add", "joinall-vs-setworkercount"}
 
 // cycleAndPark makes every worker go once through its loop and parks them at `point`
 // (workers that reach it), returns the rule. The workers are woken by adding and
@@ -439,8 +452,9 @@ func c09RunDirected(name string, W int) string {
 		<-d
 	case "joinall-vs-resize":
 		// SetWorkerCount while a JoinAll is being carried out: the worker has found the queue empty on the
-		// exit-when-drained path (held at pool.get.empty) when the pool is resized to W+1; W+1 workers must
-		// result (the worker is still counted on). Afterwards the pool is emptied so that JoinAll returns.
+		// exit-when-drained path (held at pool.get.empty) when the pool is resized to W+1. The worker is still
+		// counted on (no under-shoot at that moment); JoinAll keeps its request up, so it is decided last:
+		// it returns and leaves no worker.
 		c.setWorkers(W, false)
 		c.quiesce()
 		r := s.AddRule("w*", "pool.get.empty", W)
@@ -452,13 +466,22 @@ func c09RunDirected(name string, W int) string {
 		}
 		c.setWorkers(W+1, false)
 		s.Release(r)
+		c.awaitJoin(jd)
+	case "joinall-vs-setworkercount":
+		// a SetWorkerCount(n>0) overwrites the request of a JoinAll that is being carried out (its workers,
+		// woken by JoinAll, are held before their kill check): SOME order must win, JoinAll must return
+		c.setWorkers(W, false)
 		c.quiesce()
-		if n := len(c.tp.State()["TotalWorkerThreads"].([]uint64)); n != W+1 {
-			c.rsMid = true
+		r := s.AddRule("w*", "pool.worker.head", W)
+		jd := make(chan struct{})
+		go func() { s.Adopt(); c.joinAll(); close(jd) }()
+		c.win = "0"
+		if r.WaitParked(W, 500*time.Millisecond) {
+			c.win = "1"
 		}
-		c.setWorkers(0, true)
-		<-jd
-		c.joined = false
+		c.setWorkers(W+1, false)
+		s.Release(r)
+		c.awaitJoin(jd)
 	case "joinall-vs-add":
 		// tasks arrive while JoinAll is being carried out
 		c.setWorkers(W, false)
@@ -556,8 +579,47 @@ func (c *c09Case) joinWithAdds(n int) {
 		c.quiesce()
 		c.setWorkers(0, true)
 	}
+	c.mu.Lock()
 	c.lastSet = -1
 	c.joined = true
+	c.mu.Unlock()
+}
+
+// awaitJoin waits for a JoinAll running in another goroutine. JoinAll polls, so "it does not return"
+// is judged from the pool: the workers are quiescent and the Go scheduler provably ran fresh goroutines
+// for 6 rounds of 50 ms. A JoinAll that spins is reported (ja=bad) and then freed by emptying the pool.
+func (c *c09Case) awaitJoin(jd chan struct{}) {
+	c.quiesce()
+	rounds := 0
+	last := c.s.snapshot()
+	for k := 0; k < 200 && rounds < 6; k++ {
+		select {
+		case <-jd:
+			return
+		case <-time.After(50 * time.Millisecond):
+		}
+		sn := c.s.snapshot()
+		// spinning = the workers sit in Wait and nothing but JoinAll's identical polls is recorded
+		if sn.events != last.events || sn.notWaiting != 0 || sn.liveWorkers == 0 {
+			rounds = 0
+			last = sn
+			continue
+		}
+		if c09Heartbeat(50 * time.Millisecond) {
+			rounds++
+		}
+	}
+	select {
+	case <-jd:
+		return
+	default:
+	}
+	c.setWorkers(0, true)
+	<-jd
+	c.mu.Lock()
+	c.ja = "bad" // JoinAll did not return although the pool was quiescent
+	c.lastSet = -1
+	c.mu.Unlock()
 }
 
 func (c *c09Case) runProg(prog string) {
@@ -604,6 +666,14 @@ func (c *c09Case) runProg(prog string) {
 		case 'J':
 			c.bg.Wait()
 			c.joinWithAdds(n)
+		case 'Z':
+			// JoinAll overlapping a SetWorkerCount(n): whichever is decided last wins, both return
+			c.bg.Wait()
+			jd := make(chan struct{})
+			go func() { c.s.Adopt(); c.joinAll(); close(jd) }()
+			c.setWorkers(n, false)
+			c.awaitJoin(jd)
+			c.rsAlt = []int{0, n}
 		case 'n':
 			c.addTask(c.newID(), n, -1)
 		case 'd':
@@ -804,6 +874,9 @@ func c09GenProg(r *Rand, W int, g *Gen) string {
 		if x == 0 {
 			ops = append(ops, "J"+strconv.Itoa(1+r.Intn(8)))
 			g.Count("op.joinall-with-adds")
+		} else if x == 1 {
+			ops = append(ops, "Z"+strconv.Itoa(1+r.Intn(5)))
+			g.Count("op.joinall-with-resize")
 		} else {
 			ops = append(ops, "j")
 			g.Count("op.joinall")
@@ -872,5 +945,5 @@ func c09Gen(g *Gen) {
 }
 
 func init() {
-	register("C09", &Prop{Gen: c09Gen, Run: c09Run, Timeout: 20 * time.Second, Tool: c09Tool})
+	register("C09", &Prop{Gen: c09Gen, Run: c09Run, Timeout: 12 * time.Second, Tool: c09Tool})
 }
